@@ -1,6 +1,8 @@
 package props
 
 import (
+	"net/url"
+	"encoding/base64"
 	"encoding/json"
 
 	"github.com/zitadel/saml/pkg/provider/key"
@@ -96,6 +98,8 @@ func c15WorldCfg(cfgName string) *world.World {
 	return w
 }
 
+const c15Spelled = 9
+
 func c15Bodies() []c15Body {
 	sso := func(sp msg.SPMeta, host, tag string, bad bool) func(w *world.World) *http.Request {
 		return func(w *world.World) *http.Request {
@@ -138,7 +142,49 @@ func c15Bodies() []c15Body {
 	loSameID := func(w *world.World) *http.Request {
 		return msg.PostForm(c15HostB, w.Cfg.SLOPath(), "SAMLRequest", msg.Logout(msg.LogoutOpts{ID: "_lo-q6-tg", Issuer: msg.SPB().EntityID, NameID: "user-q8-ti"}).Render(xt.Style{}), "relay-q8-ti", nil)
 	}
+	// requests in other wire spellings (other decoding paths): POST-binding AuthnRequests / LogoutRequests whose base64 text is
+	// unpadded, URL-safe, blank-separated or CRLF-wrapped, a stored-block DEFLATE stream, every lexical XML variant at once
+	ssoPostSpelled := func(sp msg.SPMeta, host, tag, form string) func(w *world.World) *http.Request {
+		return func(w *world.World) *http.Request {
+			st := xt.Style{}
+			if form == "lex-all" {
+				lexStyle(&st, "all")
+			}
+			doc := msg.Authn(msg.AuthnOpts{ID: "_authn-" + tag, Issuer: sp.EntityID, Destination: w.Cfg.SSOLocation(host)}).Render(st)
+			if form == "stored-deflate" {
+				return msg.Redirect{XML: doc, RelayState: "relay-" + tag, Flate: "stored"}.Request(host, w.Cfg.SSOPath())
+			}
+			b64 := base64.StdEncoding.EncodeToString(doc)
+			if form == "unpadded" && !strings.HasSuffix(b64, "=") {
+				b64 = base64.StdEncoding.EncodeToString(append(doc, ' ')) // (one more byte of trailing white space: now there is padding to drop)
+				if !strings.HasSuffix(b64, "=") {
+					b64 = base64.StdEncoding.EncodeToString(append(doc, ' ', ' '))
+				}
+			}
+			if form != "lex-all" {
+				b64 = c14B64Form(b64, form)
+			}
+			f := url.Values{"SAMLRequest": {b64}, "RelayState": {"relay-" + tag}}
+			return world.NewRequest("POST", host, w.Cfg.SSOPath(), nil, "application/x-www-form-urlencoded", []byte(f.Encode()))
+		}
+	}
+	loPostSpelled := func(sp msg.SPMeta, host, tag, form string) func(w *world.World) *http.Request {
+		return func(w *world.World) *http.Request {
+			doc := msg.Logout(msg.LogoutOpts{ID: "_lo-" + tag, Issuer: sp.EntityID, NameID: "user-" + tag}).Render(xt.Style{})
+			f := url.Values{"SAMLRequest": {c14B64Form(base64.StdEncoding.EncodeToString(doc), form)}, "RelayState": {"relay-" + tag}}
+			return world.NewRequest("POST", host, w.Cfg.SLOPath(), nil, "application/x-www-form-urlencoded", []byte(f.Encode()))
+		}
+	}
 	return []c15Body{
+		{"sso-post-A-unpadded-base64", []string{"w0-ua", c15HostA}, ssoPostSpelled(msg.SPA(), c15HostA, "w0-ua", "unpadded")},
+		{"sso-post-B-unpadded-base64", []string{"w1-ub", c15HostB}, ssoPostSpelled(msg.SPB(), c15HostB, "w1-ub", "unpadded")},
+		{"sso-post-B-urlsafe-base64", []string{"w2-uc", c15HostB}, ssoPostSpelled(msg.SPB(), c15HostB, "w2-uc", "urlsafe")},
+		{"sso-post-A-blank-separated-base64", []string{"w3-ud", c15HostA}, ssoPostSpelled(msg.SPA(), c15HostA, "w3-ud", "blank-groups")},
+		{"sso-post-B-crlf-wrapped-base64", []string{"w4-ue", c15HostB}, ssoPostSpelled(msg.SPB(), c15HostB, "w4-ue", "crlf76")},
+		{"sso-redirect-A-stored-deflate", []string{"w5-uf", c15HostA}, ssoPostSpelled(msg.SPA(), c15HostA, "w5-uf", "stored-deflate")},
+		{"sso-post-B-every-lexical-variant", []string{"w6-ug", c15HostB}, ssoPostSpelled(msg.SPB(), c15HostB, "w6-ug", "lex-all")},
+		{"logout-post-A-unpadded-base64", []string{"w7-uh", c15HostA}, loPostSpelled(msg.SPA(), c15HostA, "w7-uh", "unpadded")},
+		{"logout-post-B-tab-indented-base64", []string{"w8-ui", c15HostB}, loPostSpelled(msg.SPB(), c15HostB, "w8-ui", "tab-indent")},
 		{"sso-B-with-the-request-id-of-sso-A", []string{"q9-tj", c15HostB, "q0-ta"}, ssoSameID}, // the shared id carries the other body's tag legitimately
 		{"attrquery-S2-with-the-query-id-of-attrquery-S1", []string{c15Sess[1], c15HostB, c15Sess[0]}, aqSameID},
 		{"attrquery-login-name-of-S1-in-tenant-b", []string{"k1b-sx", c15HostB, c15Sess[0]}, aqTenantB}, // the login name carries session 1's tag legitimately
@@ -255,8 +301,13 @@ func c15Scenarios() []c15Scenario {
 		panic(name)
 	}
 	var out []c15Scenario
+	// the first c15Spelled bodies (other wire spellings) are paired among themselves and with two ordinary bodies; all other bodies
+	// are paired with each other
 	for i := range bs {
 		for j := i; j < len(bs); j++ {
+			if i < c15Spelled && j >= c15Spelled && bs[j].Name != "sso-A" && bs[j].Name != "logout-B" {
+				continue
+			}
 			out = append(out, c15Scenario{Name: bs[i].Name + " || " + bs[j].Name, Bodies: []int{i, j}})
 		}
 	}
